@@ -303,7 +303,9 @@ func c05(c *Ctx) {
 		"a resource missing from the unsynced/unready sets lets Ready/Synced=True through")
 	if rec != nil {
 		up := calls(rec, xp+pkgComposite+".updateXRConditions")
-		if c.expect("updateXRConditions", len(up), 1, rec) {
+		if c.expect("updateXRConditions", len(up), 1, rec) && len(cfgx.CallArgs(up[0])) < 4 {
+			c.R.Unknown(load.FuncName(rec)+": updateXRConditions arguments", c.pos(up[0].Pos()), "updateXRConditions no longer takes (xr, unsynced, unready, res): the collections it decides on cannot be identified")
+		} else if len(up) == 1 {
 			a := cfgx.CallArgs(up[0])
 			for i, fld := range []string{"Synced", "Ready"} {
 				var apps []ssa.CallInstruction
